@@ -13,9 +13,7 @@ RULE = ('streams: parse (get_ast vs Lean parseGeom, exact tree incl. associativi
         "generator's AST read the MCNP way vs the converter's post-complement tree on all 2^n sense "
         'assignments, evaluated by the Lean spec), written (the volumes finally written for a deep expression vs the MCNP reading of the card, point monitor). A case is non-trivial when its expression has at least '
         'two operators or a complement; distinct = distinct canonical text / deck.')
-NOT_PROVED = ['the fuel 2·len+4 of the parseGeom model is not shown sufficient for every expression (the theorems use '
-              'the fuel u.cost; the correspondence stream compares parseGeom with the code)',
-              "expressions with '#n' nested under '#( … )' are outside parse_canonical's hypothesis "
+NOT_PROVED = ["expressions with '#n' nested under '#( … )' are outside parse_canonical's hypothesis "
               '(u.tree = none): the converter raises AttributeError there (known finding F11)']
 ASSUMPTIONS = ['surface number 0 is never referenced', "the characters '_' and '^' (normalize()'s internal markers, not MCNP syntax) do not occur in input expressions", "Python's \\s is modelled as the six ASCII blanks"]
 
